@@ -34,7 +34,7 @@ def run(tier):
     rnd = random.Random(C.seed() + 29)
     jobs, plan = [], []
     k = 0
-    reps = 6 if tier == "quick" else 18
+    reps = 6 if tier == "quick" else 60
     for algo in A.ALGO_NAMES:
         for rep in range(reps):
             what = ["scale2k", "translate-dyadic", "approx"][rep % 3]
